@@ -145,14 +145,23 @@ if exe and os.path.exists(ck.driver()):
                 with open(r['out_path'], 'rb') as f:
                     good = r['status'] == 0 and f.read() == data
                 os.unlink(r['out_path'])
-                if not good:
-                    fail_run('decompression run failed or hung (status %s, '
-                             'timed out %s): %s' % (r['status'], r['timed_out'],
-                                                    r['stderr'][-200:]),
-                             case, r['stderr'].encode())
-                    continue
                 tin = v.get('in_slots') or 4 * n
                 tout = v.get('out_slots') or 16 * n
+                if not good:
+                    diag = ''
+                    try:     # where does the refined model stop following it?
+                        _, diag = SD.accept_w(
+                            drvd, n, tin, tout, 0,
+                            SD.trace_to_events(r['trace_path']),
+                            hung=bool(r['timed_out']))
+                    except Exception as e:       # diagnosis only
+                        diag = 'no diagnosis (%r)' % e
+                    fail_run('decompression run failed or hung (status %s, '
+                             'timed out %s): %s; refined-model replay: %s' % (
+                                 r['status'], r['timed_out'],
+                                 r['stderr'][-200:], str(diag)[:200]),
+                             case, r['stderr'].encode())
+                    continue
                 ev = SD.trace_to_events(r['trace_path'])
                 ok, rep = SD.accept(drvd, n, tin, tout, 0, ev)
                 nl = len(SD.trace_lines(r['trace_path']))
